@@ -21,6 +21,15 @@ F = [
  ("C02","C02-commit-after-torn-header","fixed","c99ad00","a commit acknowledged after recovery from a torn record tail was appended behind the garbage and was unreachable on the next recovery"),
  ("C02","C02-rotation-straddling-commit","fixed","1ee9bba","the commit whose apply step rotated the full memtable had its WAL record in the old segment but lived in the new memtable; flushing the old memtable released the segment and the acknowledged commit was lost on restart"),
  ("C03","C03-batch-torn-by-rotation","fixed","3b2b695","a multi-key transaction met a full memtable half-way: part of it stayed in the old memtable and was flushed to a table on its own (transaction partly present after losing the WAL tail)"),
+ ("C09","C09-inverted-bounds-deep-level","fixed","47c988d","range(start > end) panicked (slice index) when tables exist on a level >= 1"),
+ ("C10","C10-backward-history-stops-at-hidden-key","fixed","53d1d13","a complete backward history traversal stopped at the first key that had nothing to list (hard-deleted, filtered, invisible)"),
+ ("C10","C10-ts-range-lists-erased-version","fixed","8962d95","history restricted to a timestamp range listed versions erased by a hard delete / replace whose timestamp lies outside the range"),
+ ("C10","C10-compaction-drops-version-above-replace","fixed","4cc7479","compaction discarded versions written AFTER a replace (unlimited retention): time-travel read at their timestamp returned the replaced value"),
+ ("C10","C10-compaction-resurrects-erased-version","fixed","ed76dbd","set@10, hard delete@20, set@30: compaction dropped the non-newest delete but kept the version it had erased; it came back in history and get_at"),
+ ("C10","C10-ts-range-out-of-order-memtable","fixed","face2fa","index back-end, unflushed versions written out of timestamp order: history with a timestamp range skipped in-range versions"),
+ ("C10","C10-open-reader-makes-compaction-drop-history","fixed","fedc26d","versioning with unlimited retention: flush + compaction while any reader was open discarded older versions (snapshot-boundary supersession applied to history)"),
+ ("C10","C10-retention-drops-replace-barrier","open","","finite retention, LSM back-end: a non-bottom compaction drops an expired replace while versions it erased survive on a deeper level; they come back in history / get_at. Not repaired: src/test/iterator_tests.rs (test_compaction_iterator_set_with_delete_marks_older_versions_stale, ..._multiple_replace_operations) pins dropping the expired replace at a non-bottom level"),
+ ("C10","C10-index-retention-barrier-cleaned","open","","version index + finite retention: the index entry of an expired replace is cleaned with its value-log file while older tombstone entries (no value pointer) stay; the erased tombstone is listed again. Not repaired: needs a redesign of index clean-up (entries without value pointers are never collected)"),
  ("C11","C11-vlog-rotation-inside-flush-not-synced","fixed","f424741","a value-log file rotated away inside a flush was never fsynced; after power loss the installed table pointed at missing bytes"),
 ]
 out = {"_comment": "Committed; never written at run time. status=open: the directed scenario with the same id (harness/src/scenarios.rs or harness/src/props/crash.rs) still fails on the tree; the check prints KNOWN-FINDING for it and the generators mask exactly that pattern. status=fixed: repaired by the named fix: commit in /repo; suppresses nothing - the scenario stays in the check as a regression monitor and reports VIOLATION if the behaviour returns.",
